@@ -71,6 +71,17 @@ type Replay struct {
 	ShrinkRuns  int      `json:"shrink_runs"`
 	PlanJSON    any      `json:"plan,omitempty"`
 	Log         []string `json:"event_log,omitempty"`
+	// Prefix (race scenarios only): the runs the worker process had executed before this one.
+	// The race detector's reports depend on process history (each race is reported once per
+	// process and its bounded access history is shared), so a faithful replay re-executes them first.
+	Prefix *ReplayPrefix `json:"prefix,omitempty"`
+}
+
+// ReplayPrefix identifies the runs [First, Seed) of a worker with seed base Base.
+type ReplayPrefix struct {
+	Base  uint64 `json:"base"`
+	First uint64 `json:"first"`
+	Only  string `json:"only,omitempty"`
 }
 
 // RunOnce executes scenario s with the given tapes inside a fresh bubble.
@@ -238,19 +249,14 @@ func seedFor(base uint64, i uint64) uint64 {
 	return z ^ (z >> 31)
 }
 
-// Worker runs scenarios of a property for a number of runs / a wall budget.
-func Worker(t *testing.T, prop string, only string, base uint64, first, count uint64, budget time.Duration, replayDir string, known func(fp string) bool) *WorkerResult {
-	wr := &WorkerResult{Property: prop, Probes: map[string]int{}, PerScenario: map[string]int{}, Stranded: map[string]int{}, FirstSeed: first}
+// wheelFor lists the scenarios of a property (or the single one named) repeated by weight.
+func wheelFor(prop, only string) []*Scenario {
 	scs := registry[prop]
 	if only != "" {
 		scs = nil
 		if s := Find(prop, only); s != nil {
 			scs = []*Scenario{s}
 		}
-	}
-	if len(scs) == 0 {
-		wr.HarnessErr = "no scenario registered for " + prop + "/" + only
-		return wr
 	}
 	var wheel []*Scenario
 	for _, s := range scs {
@@ -261,8 +267,15 @@ func Worker(t *testing.T, prop string, only string, base uint64, first, count ui
 			wheel = append(wheel, s)
 		}
 	}
+	return wheel
+}
+
+// Worker runs scenarios of a property for a number of runs / a wall budget.
+func Worker(t *testing.T, prop string, only string, base uint64, first, count uint64, budget time.Duration, replayDir string, known func(fp string) bool) *WorkerResult {
+	wr := &WorkerResult{Property: prop, Probes: map[string]int{}, PerScenario: map[string]int{}, Stranded: map[string]int{}, FirstSeed: first}
+	wheel := wheelFor(prop, only)
 	if len(wheel) == 0 {
-		wr.HarnessErr = "no applicable scenario (race build required?)"
+		wr.HarnessErr = "no applicable scenario registered for " + prop + "/" + only + " (race build required?)"
 		return wr
 	}
 	start := time.Now()
@@ -318,7 +331,10 @@ func Worker(t *testing.T, prop string, only string, base uint64, first, count ui
 			}
 			seenFP[fp] = true
 			rp := &Replay{Property: prop, Scenario: s.Name, Seed: i, Plan: pt.Recorded(), Sched: st.Recorded(), Fingerprint: fp, Detail: o.Violation.Detail}
-			if known == nil || !known(fp) {
+			if s.Race {
+				rp.Prefix = &ReplayPrefix{Base: base, First: first, Only: only}
+			}
+			if (known == nil || !known(fp)) && !s.Race {
 				// minimise only what will be reported
 				p2, s2, runs := Shrink(t, s, rp.Plan, rp.Sched, fp, 20*time.Second, 400)
 				rp.Plan, rp.Sched, rp.ShrinkRuns = p2, s2, runs
@@ -409,6 +425,16 @@ func ReplayFile(t *testing.T, path string) (*Replay, *Outcome, error) {
 	s := Find(rp.Property, rp.Scenario)
 	if s == nil {
 		return &rp, nil, fmt.Errorf("unknown scenario %s/%s", rp.Property, rp.Scenario)
+	}
+	// Oracles that can observe several violations in one run (the race detector) report the expected one if it is among them.
+	os.Setenv("VERIF_EXPECT", rp.Fingerprint)
+	if rp.Prefix != nil && os.Getenv("VERIF_REPLAY_PREFIX") == "1" {
+		wheel := wheelFor(rp.Property, rp.Prefix.Only)
+		for i := rp.Prefix.First; i < rp.Seed && len(wheel) > 0; i++ {
+			ps := wheel[int(i%uint64(len(wheel)))]
+			seed := seedFor(rp.Prefix.Base, i)
+			RunOnce(t, ps, simrt.NewTape(seed|1, nil), simrt.NewTape(seed&^1, nil))
+		}
 	}
 	o := RunOnce(t, s, simrt.NewTape(0, nz(rp.Plan)), simrt.NewTape(0, nz(rp.Sched)))
 	return &rp, o, nil
